@@ -267,6 +267,10 @@ class merge_havoc(Contract):
 class merge_results(Contract):
     qualname = "pyoma2.setup.multi.MultiSetup_PoSER.merge_results"
     props = ("C02",)
+    bounded_driver = {"driver": "c02_results", "inputs": {}}
+
+    def witness(self, o):
+        return dict(self.bounded_driver)
     callable_modular = False
     generic_replay = False
     use = {"pyoma2.functions.gen.merge_mode_shapes": "havoc"}
